@@ -18,10 +18,7 @@ import (
 	"go.etcd.io/bbolt/xverif/work"
 )
 
-var (
-	curCase  atomic.Pointer[Case]
-	runStart atomic.Int64
-)
+var curCase atomic.Pointer[Case]
 
 // safeRun executes one case, converting panics and memory faults inside the
 // code under test into violations of the case's property.
@@ -29,6 +26,7 @@ func safeRun(e Engine, c *Case, dir string) (out *Outcome) {
 	curCase.Store(c)
 	runStart.Store(time.Now().UnixNano())
 	defer runStart.Store(0)
+	defer JournalDone()
 	defer func() {
 		if r := recover(); r != nil {
 			sim.Uninstall()
@@ -107,6 +105,7 @@ func TestWorker(t *testing.T) {
 		fmt.Println("HARNESS-ERROR unknown property", sp.Prop)
 		os.Exit(2)
 	}
+	journalDir, journalID = sp.OutDir, sp.ID
 	dir := filepath.Join(sp.OutDir, fmt.Sprintf("w%d", sp.ID))
 	_ = os.MkdirAll(dir, 0755)
 	defer os.RemoveAll(dir)
